@@ -53,6 +53,21 @@ def _setup():
         raise HarnessError("seam mismatch: tsdate.cli.tsdate_main is gone")
     _M.update(tsdate=tsdate, tskit=tskit, cli=tsdate.cli,
               clock_modules=[tsdate.core, tsdate.util, tsdate.variational, tskit.provenance])
+    # CPU time and peak memory figures in provenance records come from os.times / getrusage: real, varying numbers
+    # whose decimal LENGTH changes the size of every .trees file written, and file sizes feed back into the tape
+    # (truncate/flip offsets).  Keep the real function (elapsed_time still comes from the virtual clock) but pin
+    # those three figures.  Found by selftest/determinism (C34, VERIF_SEED=3, run 10).
+    real_get_resources = tskit.provenance.get_resources
+    if not getattr(real_get_resources, "_verif_pinned", False):
+        def get_resources(start_time):
+            r = real_get_resources(start_time)
+            for k, v in (("user_time", 1.5), ("sys_time", 0.25), ("max_memory", 123456789)):
+                if k in r:
+                    r[k] = v
+            return r
+
+        get_resources._verif_pinned = True
+        tskit.provenance.get_resources = get_resources
     import logging
     import warnings
 
